@@ -142,63 +142,81 @@ def run(rep, programs):
         rep.check(good, rule2, "main|alloc-record", "records (frame returned by get, event order)", "alloc record is (%s, %s)" % (T.show(a[0])[:80], T.show(a[1])[:80]), wa[0][1]["span"])
     else:
         rep.violation(rule2, "main|alloc-branch", "expected one get and one Allocation::with", b.span)
-    # ---- lookup
-    ad = lib.find_calls(b, "llfree::util::align_down")
-    good = False
-    for bi, t in ad:
-        a = [tm.operand(x) for x in t["args"]]
-        l = T.linear(a[1])
-        if is_event_pfn(a[0]) and l is not None and len(l[0]) == 1 and list(l[0].keys())[0][0] == "pow2":
-            o = list(l[0].keys())[0][1]
-            # the order variable iterates entry.order ..= TREE_ORDER
-            rng = [x for x in T.walk(tm.operand(t["args"][1])) if x[0] == "call" and x[1] == "core::ops::range::RangeInclusive::new"]
-            if rng:
-                lo, hi = rng[0][2]
-                good = mentions_event_field(lo, "order") and T.const_val(hi) == prog.crate("llfree").const("llfree::TREE_ORDER")
-    rep.check(good, rule2, "main|lookup", "covering record searched at align_down(pfn, 1 << o) for o in entry.order..=TREE_ORDER",
-              "lookup of the covering allocation changed", b.span)
+    # ---- lookup of the covering record: a loop `for o in entry.order..=TREE_ORDER` in main, or a closure handed to
+    #      find_map/find over that range
+    TREE_ORDER = prog.crate("llfree").const("llfree::TREE_ORDER")
+    look = None
+    for cb in [b] + list(prog.crate("replay").closures_of(MAIN) if prog.crate("replay") else []):
+        ctm = tm if cb is b else T.Terms(cb, prog)
 
+        def res(t, cb=cb):
+            return lib.resolve_upvars(prog, cb, t) if cb is not b else t
+        for bi, t in lib.find_calls(cb, "llfree::util::align_down"):
+            a0 = res(ctm.operand(t["args"][0]))
+            l = T.linear(ctm.operand(t["args"][1]))
+            if not is_event_pfn(a0) or l is None or len(l[0]) != 1 or list(l[0].keys())[0][0] != "pow2":
+                continue
+            o = list(l[0].keys())[0][1]       # canonical order term
+            rng = None
+            raw_o = [x for x in T.walk(ctm.operand(t["args"][1])) if T.canon(x) == o]
+            if cb is b:
+                rr = [x for x in T.walk(ctm.operand(t["args"][1])) if x[0] == "call" and x[1] == "core::ops::range::RangeInclusive::new"]
+                if rr and any(x[0] == "call" and x[1].endswith("::next") for x in T.walk(("x", o))):
+                    rng = rr[0][2]
+            elif o[0] == "p":
+                # closure parameter: the closure must be the argument of find_map / find over the inclusive range
+                for pb, pt in b.calls():
+                    cn = callee_name(pt["callee"]) or ""
+                    if cn.rsplit("::", 1)[-1] in ("find_map", "find", "position") and any(
+                            x[0] == "agg" and x[1] == "closure:" + cb.name for a in pt["args"] for x in T.walk(tm.operand(a))):
+                        rr = [x for x in T.walk(tm.operand(pt["args"][0])) if x[0] == "call" and x[1] == "core::ops::range::RangeInclusive::new"]
+                        if rr:
+                            rng = rr[0][2]
+            look = {"body": cb, "tm": ctm, "res": res, "order": o, "rng": rng, "apfn": T.canon(res(ctm.call_term(bi))), "span": t["span"]}
+    good = False
+    if look and look["rng"]:
+        lo, hi = look["rng"]
+        good = mentions_event_field(lo, "order") and T.const_val(hi) == TREE_ORDER
+    rep.check(good, rule2, "main|lookup", "covering record searched at align_down(pfn, 1 << o) for o in entry.order..=TREE_ORDER",
+              "lookup of the covering allocation changed (no align_down(pfn, 1 << o) over o in entry.order..=TREE_ORDER found)", b.span)
     # ---- the record accepted by the lookup covers the freed block: present and order >= the loop's order
-    cover_ok, cdesc = False, "no `found = Some(align_down(..))` assignment on the free branch"
-    for bi, si, st in b.stmts():
-        if st["k"] != "assign" or st["rv"]["k"] != "aggregate" or "Some" not in str(st["rv"]["kind"]):
-            continue
-        t = tm.rvalue(st["rv"])
-        ads = [x for x in T.walk(t) if x[0] == "call" and x[1] == "llfree::util::align_down"]
-        if not ads:
-            continue
-        apfn = T.canon(ads[0])
-        lv = T.linear(ads[0][2][1])
-        if lv is None or len(lv[0]) != 1 or list(lv[0].keys())[0][0] != "pow2":
-            continue
-        loop_order = list(lv[0].keys())[0][1]      # canonical term of the loop's order variable
-        has_present = has_order = False
-        wrong = []
-        for sd, d in lib.controlling_edges(b, bi):
-            c = tm.operand(b.term(sd)["discr"])
-            pol = lib.bool_edge_polarity(b, sd, d)
-            if c[0] == "call" and c[1].endswith("Allocation::present") and pol:
-                idx = [x for x in T.walk(c) if x[0] == "call" and x[1] == "llfree::util::align_down"]
-                has_present = has_present or (bool(idx) and T.canon(idx[0]) == apfn)
-            if c[0] == "bin" and pol is not None:
-                cmp_ = lib.normalize_cmp(c)
-                if not cmp_:
-                    continue
-                lhs, rel, rhs = cmp_ if pol else lib.negate_rel(cmp_)
-                if rel in ("gt", "ge"):
-                    lhs, rhs, rel = rhs, lhs, {"gt": "lt", "ge": "le"}[rel]
-                big = T.strip_casts(rhs)
-                if big[0] == "call" and big[1].endswith("Allocation::order"):
-                    idx = [x for x in T.walk(big) if x[0] == "call" and x[1] == "llfree::util::align_down"]
-                    same_rec = bool(idx) and T.canon(idx[0]) == apfn
-                    if rel == "le" and same_rec and T.canon(T.strip_casts(lhs)) == loop_order:
-                        has_order = True
-                    else:
-                        wrong.append("%s %s %s" % (T.show(lhs)[:60], rel, T.show(rhs)[:60]))
-        cover_ok = has_present and has_order
-        cdesc = ("record at align_down(pfn, 1 << o) accepted iff present and its order >= o" if cover_ok else
-                 "the record at align_down(pfn, 1 << o) is accepted without requiring present() and order() >= o (the loop's order): "
-                 "a smaller allocation on an aligned ancestor that does not reach the freed pfn is taken as the covering block%s" % (
-                     " [guard found: %s]" % "; ".join(wrong) if wrong else ""))
-        break
+    cover_ok, cdesc = False, "no `Some(align_down(..))` result of the lookup found"
+    if look:
+        cb, ctm, res, loop_order, apfn = look["body"], look["tm"], look["res"], look["order"], look["apfn"]
+        for bi, si, st in cb.stmts():
+            if st["k"] != "assign" or st["rv"]["k"] != "aggregate" or "Some" not in str(st["rv"]["kind"]):
+                continue
+            t = res(ctm.rvalue(st["rv"]))
+            ads = [x for x in T.walk(t) if x[0] == "call" and x[1] == "llfree::util::align_down"]
+            if not ads or T.canon(ads[0]) != apfn:
+                continue
+            has_present = has_order = False
+            wrong = []
+            for sd, d in lib.controlling_edges(cb, bi):
+                c = res(ctm.operand(cb.term(sd)["discr"]))
+                pol = lib.bool_edge_polarity(cb, sd, d)
+                if c[0] == "call" and c[1].endswith("Allocation::present") and pol:
+                    idx = [x for x in T.walk(c) if x[0] == "call" and x[1] == "llfree::util::align_down"]
+                    has_present = has_present or (bool(idx) and T.canon(idx[0]) == apfn)
+                if c[0] == "bin" and pol is not None:
+                    cmp_ = lib.normalize_cmp(c)
+                    if not cmp_:
+                        continue
+                    lhs, rel, rhs = cmp_ if pol else lib.negate_rel(cmp_)
+                    if rel in ("gt", "ge"):
+                        lhs, rhs, rel = rhs, lhs, {"gt": "lt", "ge": "le"}[rel]
+                    big = T.strip_casts(rhs)
+                    if big[0] == "call" and big[1].endswith("Allocation::order"):
+                        idx = [x for x in T.walk(big) if x[0] == "call" and x[1] == "llfree::util::align_down"]
+                        same_rec = bool(idx) and T.canon(idx[0]) == apfn
+                        if rel == "le" and same_rec and T.canon(T.strip_casts(lhs)) == loop_order:
+                            has_order = True
+                        else:
+                            wrong.append("%s %s %s" % (T.show(lhs)[:60], rel, T.show(rhs)[:60]))
+            cover_ok = has_present and has_order
+            cdesc = ("record at align_down(pfn, 1 << o) accepted iff present and its order >= o" if cover_ok else
+                     "the record at align_down(pfn, 1 << o) is accepted without requiring present() and order() >= o (the loop's order): "
+                     "a smaller allocation on an aligned ancestor that does not reach the freed pfn is taken as the covering block%s" % (
+                         " [guard found: %s]" % "; ".join(wrong) if wrong else ""))
+            break
     rep.check(cover_ok, rule2, "main|lookup-covers", cdesc, cdesc, b.span)
